@@ -212,6 +212,18 @@ def decide(ctx, hp, vp):
             r, w = verify(h)
             if r[0] != "raise" or r[1] not in ALLOWED:
                 out["lengths"].append({"input": name, "outcome": repr(r)[:80], "reached_scrypt": bool(w.scrypt)})
+        # --- a damaged string is refused, not repaired: the stored form is exactly what hash_password wrote - base64 with its padding.
+        # A reader that strips white space or restores missing padding accepts strings that lost their last characters (the data
+        # field of the writer's format ends in padding) and verifies the right password against them
+        good = make()
+        damaged = {"last character missing": good[:-1], "last two characters missing": good[:-2], "trailing newline": good + "\n", "trailing blank": good + " ",
+                   "blank inside the data field": good[:-6] + " " + good[-6:], "params field without its padding": ":".join(p_.rstrip("=") if k_ == 2 else p_ for k_, p_ in enumerate(good.split(":")))}
+        for name, h in damaged.items():
+            if h == good:
+                continue
+            r, w = verify(h)
+            if r[0] != "raise" or r[1] not in ALLOWED:
+                out["accepted_malformed"].append({"input": name, "outcome": repr(r)[:80], "reached_scrypt": bool(w.scrypt)})
     except Undecided as e:
         ctx._c19eval = None
         ctx._c19eval_reason = str(e)
